@@ -9,12 +9,15 @@ import (
 	"os"
 	"os/exec"
 	"path/filepath"
+	"regexp"
+	"runtime"
 	"strings"
 	"time"
 
 	"github.com/ovh/kmip-go/kmipserver"
 	"github.com/ovh/kmip-go/ttlv"
 
+	"verifharness/internal/model"
 	"verifharness/internal/report"
 	"verifharness/internal/rng"
 	sr "verifharness/internal/streamrun"
@@ -163,7 +166,7 @@ func maxInt(a, b int) int {
 func init() {
 	register(&Engine{
 		Name: "stream",
-		Rule: "sequences of 1..4 generic TTLV messages (written by Stream.Send or by the independent encoder) on a scripted transport x read schedules (1-byte reads, random chunk sizes, boundary-spanning chunks, data returned together with an error on the frame-completing read of any message, zero-length reads and errors at random points [impl-only: safety oracles], error-free exhausted schedule) x truncation at random offsets x max in {<0, 0, server limit (probed on a real kmipserver), largest message, small} x announced lengths around the max and up to 2^32-1 (allocation measured) x the same lines on a GOARCH=386 build; distinct = distinct line; nontrivial = wire longer than one header",
+		Rule: "sequences of 1..4 generic TTLV messages (written by Stream.Send or by the independent encoder) on a scripted transport x read schedules (1-byte reads, random chunk sizes, boundary-spanning chunks, data returned together with an error on the frame-completing read of any message, zero-length reads and errors at random points [impl-only: safety oracles], error-free exhausted schedule) x truncation at random offsets x max in {<0, 0, server limit (probed on a real kmipserver), largest message, small} x announced lengths around the max and up to 2^32-1 (allocation measured) x sequences of 2..17 messages on ONE stream whose sizes grow, shrink, alternate, repeat or jump around the points where the receive buffer has to grow (the initial 512 bytes, the allocator's size classes up to 64 KiB and +-8/16 bytes around them, page-granular sizes up to the server limit): all ordered pairs of such sizes, shaped sequences of 3..17, medium and small messages after a very large one, each under one of seven clean chunkings (whole reads, 1-byte, small / large random chunks, a fixed record size, header split + body, error on the completing read) and one of four limits x the same lines on a GOARCH=386 build; distinct = distinct line; nontrivial = wire longer than one header",
 		Run:  runStream,
 	})
 }
@@ -213,6 +216,8 @@ func runStream(ctx *Ctx) {
 	}
 	r := ctx.R
 	opts := tree.GenOpts{MaxDepth: 3, MaxChildren: 4, MaxData: 30, MaxBigBits: 128}
+	// every stream.recv line is answered from the line alone: the lines may be spread over several model processes
+	model.Workers = max(1, min(6, runtime.NumCPU()/2))
 
 	// the limit the server configures (kmipserver/conn.go), observed on a real server
 	srvMax := probeServerLimit(ctx)
@@ -453,6 +458,9 @@ func runStream(ctx *Ctx) {
 			run(max, wire, []readEv{{K: 3}, {K: 5}, {K: 1 << 30, WithErr: true}, {K: 1 << 30, WithErr: sl == 8}, {K: 1 << 30, WithErr: true}}, exp("large-err-on-completion"))
 		}
 	}
+	// sequences of messages of growing / shrinking / alternating sizes on one stream (stream_seq.go)
+	streamSizeSequences(ctx, srvMax, run)
+
 	// announced lengths around the limit, exhaustively near the boundary
 	// (limits that are not a multiple of 8 as well: the limit applies to the padded size of the message, so with
 	// max = 1001 a value of 993 bytes — 8 + 993 = 1001, but 1008 bytes on the wire — is over the limit)
@@ -478,7 +486,9 @@ func runStream(ctx *Ctx) {
 		}
 	}
 	// class floors: a generator change that silently stops producing a class is a harness error
-	for _, c := range []string{"stream.class=huge-announcement", "stream.class=sched-err-on-completion", "stream.class=sched-zero-reads", "stream.class=large-err-on-completion", "stream.reject.measured", "stream.wire-by-Send", "stream.buffer-grown"} {
+	for _, c := range []string{"stream.class=huge-announcement", "stream.class=sched-err-on-completion", "stream.class=sched-zero-reads", "stream.class=large-err-on-completion", "stream.reject.measured", "stream.wire-by-Send", "stream.buffer-grown",
+		"stream.class=seq-pair", "stream.class=seq-increasing", "stream.class=seq-decreasing", "stream.class=seq-alternating", "stream.class=seq-sawtooth", "stream.class=seq-repeated", "stream.class=seq-around-edges", "stream.class=seq-after-huge",
+		"stream.seq.growths=2", "stream.seq.growths=3", "stream.seq.growths=4", "stream.seq.sched=1byte", "stream.seq.sched=err-on-completion"} {
 		if ctx.Res.Distribution[c] < 10 {
 			ctx.Res.Fail(fmt.Sprintf("stream: input class %s has only %d cases", c, ctx.Res.Distribution[c]))
 		}
@@ -576,6 +586,8 @@ func probeServerLimit(ctx *Ctx) int {
 
 // ---- 32-bit build ---------------------------------------------------------------------------------------------
 
+var capsRe = regexp.MustCompile(`:\d+`)
+
 // arch32 evaluates the same lines on the library built for GOARCH=386 (int is 32 bits wide: the announced
 // length is an unsigned 32-bit value) and requires the same answers. Skipped, and counted as such, where a
 // 386 binary cannot be built or executed.
@@ -617,12 +629,19 @@ func arch32(ctx *Ctx, lines, impls []string) {
 			c07(ctx, "arch32", "stream:32bit-crash", "the GOARCH=386 build did not answer (crashed): "+truncate(stderr.String(), 300), line)
 			break
 		}
-		a := answers[i]
+		a, c0s32 := answers[i], ""
 		if k := strings.LastIndex(a, " c0="); k >= 0 {
-			a = a[:k]
+			a, c0s32 = a[:k], a[k+4:]
 		}
 		ctx.Res.Count("stream.arch32.cases")
 		if a == impls[i] {
+			continue
+		}
+		// The capacity a call starts with is the implementation's choice and may depend on what the process did
+		// before (buffers taken from a pool): where the two builds were observed to start their calls with
+		// different capacities, only outcomes and positions are comparable.
+		if f := strings.Fields(line); len(f) > 2 && c0s32 != "" && f[2] != c0s32 && capsRe.ReplaceAllString(a, "") == capsRe.ReplaceAllString(impls[i], "") {
+			ctx.Res.Count("stream.arch32.capacities-not-comparable")
 			continue
 		}
 		key := "stream:32bit-differs"
